@@ -12,7 +12,7 @@ SPEC = {
     'note': 'bounded: three values per parameter type, clause atoms {a, b, Any(), In(a,b)}, variadic tails <= 2, In clauses with <= 2 '
             'alternatives (two-alternative In only over plain values), reduced alphabets for the longest lists of v0/v1/v2 (see rule); '
             'each clause has exactly one result (sequences are C05); a bare Return after a clause is outside the alphabet (DESIGN 3.7)',
-    'jobs': [{'bin': 'c04', 'shards': 16}],
+    'jobs': [{'bin': 'c04', 'shards': 16, 'env': {'GODEBUG': 'clobberfree=1,asyncpreemptoff=1'}}],
     'rule': 'engine E. Clause alphabets per signature: Q = When(e1..en) with ei in {a,b,Any(),In(a,b)} + In(one alternative over the same '
             'atoms) + In(two alternatives over plain values a,b) + for v0 the typed-slice form In([]int{..}[, []int{..}]); W = Q without '
             'two-alternative In; K = When/In(one alternative) over {a,Any()}; k = When over {a,Any()}; variadic clauses have tails of '
